@@ -63,6 +63,14 @@ def run(ctx):
                 c.ob("R10", okf, qd, "done-only-after-top-level-final", "done.invoke is sent only when a final child of the child's root is active" if okf else
                      f"the completion report is guarded by {at}: it must be under 'some active node is final and its parent is the child's root' - otherwise a child "
                      f"that was stopped because the invoking state was left reports success (a zombie result drives onDone)", x)
+    # sync runner: the child is considered finished when SOME active node is a final child of its root
+    sp_ = p.cls("SyncInterpreter").methods.get("_spawn_actor")
+    if sp_ is not None:
+        for rn in sp_.nested.values():
+            for x in own_nodes(rn.node):
+                if isinstance(x, ast.Call) and isinstance(x.func, ast.Name) and x.func.id in ("any", "all") and "is_final" in norm(x):
+                    c.ob("R10", x.func.id == "any", rn, "runner-detects-final-with-any", "the runner leaves its wait loop when some active node is a top-level final state" if x.func.id == "any" else
+                         "the runner's completion test uses all(...): the child's root and ancestors are active and not final, so completion is never detected and done.invoke never fires", x)
     # ---- R1 one start per activation -----------------------------------------------
     for v in VIEWS:
         r = roles(ctx, v)
